@@ -20,6 +20,7 @@ import (
 	"fmt"
 	stdio "io"
 	"math"
+	"sort"
 	"strings"
 
 	"github.com/pkg/errors"
@@ -146,8 +147,14 @@ func (a AddressDecMap) Encode(w stdio.Writer) error {
 		return errors.WithMessage(err, "encoding map length")
 	}
 
-	for i, addr := range a {
-		id := int(i)
+	// Encode the entries in the order of their keys, so that equal maps have
+	// equal encodings.
+	ids := make([]int, 0, l)
+	for i := range a {
+		ids = append(ids, int(i))
+	}
+	sort.Ints(ids)
+	for _, id := range ids {
 		if id < math.MinInt32 || id > math.MaxInt32 {
 			return errors.New("map index out of bounds")
 		}
@@ -157,9 +164,9 @@ func (a AddressDecMap) Encode(w stdio.Writer) error {
 			return errors.WithMessage(err, "encoding map index")
 		}
 
-		err = perunio.Encode(w, addr)
+		err = perunio.Encode(w, a[BackendID(id)])
 		if err != nil {
-			return errors.WithMessagef(err, "encoding %d-th address map entry", i)
+			return errors.WithMessagef(err, "encoding %d-th address map entry", id)
 		}
 	}
 	return nil
